@@ -180,9 +180,9 @@ Print Assumptions C05_matches_order_independent.
 (** 3'. The component-aware strategy returns a subset of the exhaustive strategy: every component-aware match is, as a
     set of pairs (Permutation: the order of the pairs of a match is not observable, Python dicts), an exhaustive match.
     Premises: the matcher's graphs are well formed ([gwf]: distinct node ids, bonds join two different listed atoms —
-    part of [side_okb], evaluated on every case) and neither search runs into the engine's threshold of 5000
-    embeddings ([comp_bound] = the longest list the component-aware search builds; past the threshold the engine
-    empties a result, and the exhaustive search is the first to get there).  Derived from the specification theorems
+    part of [side_okb], evaluated on every case) and neither search runs into the embedding cap ([thr_val]: 5000 by
+    default; [comp_bound] = the longest list the component-aware search builds; past the cap the engine empties a
+    result).  Section 21 removes the premise about the component-aware search.  Derived from the specification theorems
     of proof/C06_*.v (C06_comp_spec, C06_all_exact) instantiated with the reactor's configuration. *)
 Theorem C05_strategy_subset :
   forall (TH : Thr),
@@ -254,8 +254,8 @@ Print Assumptions C05_result_set_invariant_exhaustive.
     PROVED: for every strategy, every renumbering (sg, pi) and every re-ordering of atoms, bonds and bond orientations
     of substrate, rule graph and pattern, the glued ITS graphs of the rewritten inputs are, as a set of observationally
     equal graphs, exactly the renumbered glued ITS graphs of the original.  Premise per writing: the boolean [side_okb_c] = [side_okb] and
-    the longest intermediate list of the component-aware search below the engine's threshold of 5000 (past it the engine
-    empties results, which is outside the property); it is evaluated by the correspondence on every writing of every
+    the longest intermediate list of the component-aware search below the embedding cap (past it the engine
+    empties results; exhaustive strategy without this premise: sections 14e, 20, 23); it is evaluated by the correspondence on every writing of every
     case ([run_c05]).
     MISSING for the full clause: (i) the RDKit half — rewritten SMILES parse to [same_graph]s up to numbering, and
     observationally equal ITS graphs serialise to equal standardised strings (oracle contract, monitored by the
@@ -683,7 +683,9 @@ Print Assumptions C05_result_set_invariant_exhaustive_any_options_checked.
     repetitions allowed — the graphs glued from the KEPT matches correspond one to one up to [obs_eq] (first two clauses:
     [glue1], the general statement).  Third clause: the pipeline's glued graphs are exactly these (pattern without explicit
     X-H bonds).  Fourth: for a writing that satisfies [side_okb], any other listing of its exhaustive raw matches — VF2's —
-    gives the same result set, both inclusions. *)
+    gives the same result set, both inclusions.  (Scope: the fourth clause is about the exhaustive strategy; for the
+    component-aware / fallback strategies the raw list is assembled from several enumerations — per-component lists, length
+    sort, back-tracking — so the general clauses apply: independence of the kept set GIVEN the raw list.) *)
 Theorem C05_result_set_independent_of_enumeration :
   (forall host rc m, glue1 host rc m = match glue host rc m with Some T => [T] | None => [] end) /\
   (forall (host : hostg) (rc : its) (raw raw' : list mapping),
